@@ -59,6 +59,10 @@ theorem connOk_new (gr bi snt res sr p : Bool) (hp : res = true → p = false) :
     ConnOk gr bi snt res sr (Conn.new p sr) := by
   constructor <;> simp_all [Conn.new]
 
+theorem connOk_newTls (gr bi snt res sr p go bad : Bool) (hp : res = true → p = false) :
+    ConnOk gr bi snt res sr (Conn.newTls p sr go bad) := by
+  constructor <;> simp_all [Conn.newTls, Conn.new]
+
 theorem good_init (g b a : Bool) : Good (init g b a) := by
   constructor <;> simp [init]
 
@@ -197,6 +201,38 @@ theorem good_step {s s' : State} {l : Label} (hg : Good s) (h : step s l = some 
     · simp only [List.mem_singleton] at hx
       subst hx
       exact connOk_new _ _ _ _ _ _ (by intro hr; have hr' : s.resolved = true := hr; simp [hr'])
+  | offerTls go bad =>
+    simp only [step, Option.some.injEq] at h
+    subst h
+    refine { hg with conns := ?_ }
+    intro x hx
+    rcases List.mem_append.1 hx with hx | hx
+    · exact hg.conns x hx
+    · simp only [List.mem_singleton] at hx
+      subst hx
+      exact connOk_newTls _ _ _ _ _ _ _ _ (by intro hr; have hr' : s.resolved = true := hr; simp [hr'])
+  | clientHello c =>
+    refine good_updConn hg h ?_
+    intro cn _ _ hk
+    exact { hk with watcher_acc := hk.watcher_acc }
+  | tlsTake c =>
+    simp only [step] at h
+    split at h
+    · refine good_updConn hg h ?_
+      intro cn _ _ hk
+      exact { hk with watcher_acc := hk.watcher_acc }
+    · cases h
+  | tlsDone c =>
+    refine good_updConn hg h ?_
+    intro cn _ _ hk
+    exact { hk with watcher_acc := hk.watcher_acc }
+  | tlsFail c =>
+    refine good_updConn hg h ?_
+    intro cn _ hgd hk
+    simp only [Bool.and_eq_true] at hgd
+    exact { hk with
+      pending_nacc := fun hp => by simp at hp
+      resolved_npending := fun _ => rfl }
   | sigFire =>
     simp only [step] at h
     split at h
@@ -501,17 +537,18 @@ theorem good_run {s s' : State} {ls : List Label} (hg : Good s) (h : run s ls = 
 theorem step_cfg {s s' : State} {l : Label} (h : step s l = some s') :
     s'.cfgGraceful = s.cfgGraceful ∧ s'.cfgBiased = s.cfgBiased ∧ s'.cfgAge = s.cfgAge := by
   cases l <;> simp only [step] at h
-  case offer | freeRun => cases h; exact ⟨rfl, rfl, rfl⟩
+  case offer | offerTls | freeRun => cases h; exact ⟨rfl, rfl, rfl⟩
   case sigFire | endIncoming | acceptErr | loopSig | loopErr | loopEnd | afterLoop
       | resolve =>
     split at h
     · cases h; exact ⟨rfl, rfl, rfl⟩
     · cases h
-  case ageTick =>
+  case ageTick | tlsTake =>
     split at h
     · obtain ⟨_, _, _, rfl⟩ := updConn_some h; exact ⟨rfl, rfl, rfl⟩
     · cases h
-  case issue | peerDrop | connSig | connAge | connBreak | connDropWatcher | hsDone | final =>
+  case issue | peerDrop | connSig | connAge | connBreak | connDropWatcher | hsDone | final
+      | clientHello | tlsDone | tlsFail =>
     obtain ⟨_, _, _, rfl⟩ := updConn_some h; exact ⟨rfl, rfl, rfl⟩
   case permit | reqSend | cancel | callStart | produce | deliver =>
     obtain ⟨_, _, _, _, _, rfl⟩ := updCall_some h; exact ⟨rfl, rfl, rfl⟩
